@@ -141,6 +141,7 @@ class VUnit:
 
 
 UNIT = VUnit()
+SKIP = object()   # a statement compiled out by #[cfg(..)]
 
 
 def canon(v):
@@ -217,6 +218,18 @@ class Return(Exception):
         self.v = v
 
 
+class NeedDecision(Exception):
+    """a symbolic branch was reached for which the current path has no decision yet"""
+
+
+class Continue(Exception):
+    pass
+
+
+class Break(Exception):
+    pass
+
+
 # ------------------------------------------------------------------------------------------------ interpreter
 
 class Ctx:
@@ -248,6 +261,9 @@ class Interp:
         self.havoc_count = {}
         self.mut_names = set()
         self.havocked = []
+        self.decisions = []      # path-splitting: decision taken at the k-th symbolic branch of this run
+        self.dec_idx = 0
+        self.path_conds = []     # [(condition value, taken?)]
 
     # -------- helpers
     def fail(self, node, why):
@@ -327,7 +343,9 @@ class Interp:
         last = UNIT
         stmts = b["stmts"]
         for i, st in enumerate(stmts):
-            last = self.stmt(st, env, is_last=(i == len(stmts) - 1))
+            v = self.stmt(st, env, is_last=(i == len(stmts) - 1))
+            if v is not SKIP:
+                last = v
         return last
 
     def stmt(self, st, env, is_last):
@@ -373,7 +391,7 @@ class Interp:
         if k == "expr":
             e = st["expr"]
             if not self.cfg_active(e):
-                return UNIT
+                return SKIP
             v = self.expr(e, env)
             if st["semi"]:
                 return UNIT
@@ -423,6 +441,8 @@ class Interp:
 
     def e_path(self, e, env):
         segs = e["segs"]
+        if len(segs) == 2 and segs[0] == "Self" and segs[1] in self.consts:
+            return self.consts[segs[1]]
         if len(segs) == 1:
             n = segs[0]
             if n in env:
@@ -449,6 +469,13 @@ class Interp:
             if isinstance(v, int):
                 return -v
             return -as_poly(v)
+        if e["op"] == "!":
+            if isinstance(v, bool):
+                return not v
+            if isinstance(v, VOpaque) and v.name == "not":
+                return v.args[0]
+            if isinstance(v, (VOpaque, Sym)):
+                return VOpaque("not", [v])
         self.fail(e, f"unary {e['op']}")
 
     def e_binary(self, e, env):
@@ -607,7 +634,12 @@ class Interp:
         for x in items:
             env2 = dict_child(env)
             self.bind(e["pat"], x, env2)
-            self.block(e["body"], env2)
+            try:
+                self.block(e["body"], env2)
+            except Continue:
+                continue
+            except Break:
+                break
         return UNIT
 
     def e_if(self, e, env):
@@ -642,7 +674,20 @@ class Interp:
                 self.ctx.log = saved
                 self.ctx.event("if", canon(c), sub)
                 return UNIT
-        self.fail(e, "branch on a symbolic value")
+        # general case: path splitting.  The run is repeated once per combination of decisions (driver in run_unit).
+        if not isinstance(c, (VOpaque, Sym)):
+            self.fail(e, "branch on a non-boolean symbolic value")
+        k = self.dec_idx
+        self.dec_idx += 1
+        if k >= len(self.decisions):
+            raise NeedDecision()
+        take = self.decisions[k]
+        self.path_conds.append((c, take))
+        if take:
+            return self.block(e["then"], env)
+        if e["else"] is not None:
+            return self.expr(e["else"], env)
+        return UNIT
 
     def e_match(self, e, env):
         v = self.expr(e["e"], env)
@@ -690,6 +735,12 @@ class Interp:
     def e_return(self, e, env):
         v = self.expr(e["e"], env) if e["e"] is not None else UNIT
         raise Return(v)
+
+    def e_continue(self, e, env):
+        raise Continue()
+
+    def e_break(self, e, env):
+        raise Break()
 
     def e_try(self, e, env):
         v = self.expr(e["e"], env)
@@ -745,6 +796,8 @@ class Interp:
         segs = f["segs"]
         args = [self.expr(a, env) for a in e["args"]]
         name = "::".join(segs[-2:]) if len(segs) >= 2 else segs[0]
+        if len(segs) == 1 and segs[0] in env and isinstance(env[segs[0]], VClosure):
+            return self.call_closure(env[segs[0]], args)
         # builtins
         if name in ("BlsScalar::zero",):
             return C(0)
@@ -773,7 +826,43 @@ class Interp:
         if len(segs) >= 2 and segs[0] == "Error":
             # enum variant constructor with payload
             return VOpaque(path, args)
+        # a crate-local helper in the same file without a contract (typically introduced by the change under test):
+        # fall back to its BODY (interprocedural symbolic execution, recorded), never for callees that have a contract
+        if (len(segs) == 1 or (len(segs) == 2 and segs[0] == "Self")) and getattr(self, "file_root", None) and self.inline_depth < 3:
+            v = self.try_inline(segs[-1], args)
+            if v is not NotImplemented:
+                return v
         self.fail(e, f"call of `{path}` (no contract)")
+
+    inline_depth = 0
+
+    def try_inline(self, name, args):
+        root, rel, owner = self.file_root
+        cands = [name] + ([f"{owner}::{name}"] if owner else [])
+        ast = None
+        for c in cands:
+            try:
+                ast = dump_ast(root, rel, c)
+                break
+            except AstLost:
+                continue
+        if ast is None:
+            return NotImplemented
+        params = ast["sig"]["params"]
+        if any(p.get("recv") for p in params) or len(params) != len(args):
+            return NotImplemented
+        env = ChildEnv(None)
+        for p, a in zip(params, args):
+            self.bind(p["pat"], a, env)
+        self.inline_depth += 1
+        self.calls.append(f"INLINED-BODY:{name}")
+        try:
+            try:
+                return self.block(ast["body"], env)
+            except Return as r:
+                return r.v
+        finally:
+            self.inline_depth -= 1
 
     def e_mcall(self, e, env):
         m = e["m"]
@@ -814,6 +903,19 @@ class Interp:
                 n = min(len(recv.items), len(a.items))
                 return VIter([VTuple([recv.items[i], a.items[i]]) for i in range(n)])
             self.fail(e, "zip on symbolic iterator")
+        if m == "map" and isinstance(recv, VSymIter) and isinstance(args[0], VClosure):
+            # map over a collection of unknown length: the closure is run once on the generic element; the result is the
+            # uninterpreted collection  map_each(xs, f(xs[*]))  (order preserving, one output per input)
+            saved = self.ctx.log
+            self.ctx.log = []
+            body = self.call_closure(args[0], [Sym(recv.sym.path + "[*]")])
+            if self.ctx.log:
+                self.ctx.log = saved
+                self.fail(e, "effects inside map over a symbolic collection")
+            self.ctx.log = saved
+            return VSymIter(Sym(VOpaque("map_each", [recv.sym, body]).canon()))
+        if m == "collect" and isinstance(recv, VSymIter):
+            return VOpaque("collected", [recv.sym])
         if m == "map" and isinstance(recv, VIter) and isinstance(args[0], VClosure):
             return VIter([self.call_closure(args[0], [x]) for x in recv.items])
         if m == "enumerate" and isinstance(recv, VIter):
@@ -1056,71 +1158,178 @@ class Unit:
 
 
 def run_unit(root, unit, contracts, seed=0, perturb=None):
-    """Returns list of obligation dicts (id, text, status, detail, cex)."""
+    """Returns (obligations, callee-contract uses).  The real body is executed symbolically once per feasible
+    combination of decisions at its symbolic branches (path splitting, at most MAX_PATHS paths); EVERY path must meet
+    the contract."""
     if getattr(unit, "extra_contracts", None):
         contracts = dict(contracts)
         contracts.update(unit.extra_contracts)
     ast = dump_ast(root, unit.file, unit.fn)
     consts = dict(file_consts(root, unit.file))
     consts.update(unit.consts)
-    # ---- real body
-    ctx1 = Ctx()
-    it1 = Interp(ctx1, contracts, consts, src_name=f"{unit.file}::{unit.fn}")
-    it1.trace_only, it1.tracked = unit.trace_only, unit.tracked
-    env = ChildEnv(None)
     sig = ast["sig"]
-    args1 = []
-    made = [mk() for (_n, mk) in unit.params]
-    sig_params = sig["params"]
-    if len(sig_params) != len(unit.params):
-        raise AstLost(f"{unit.fn}: signature has {len(sig_params)} parameters, contract expects {len(unit.params)}")
-    for sp, (pname, _mk), val in zip(sig_params, unit.params, made):
-        if sp.get("recv"):
-            if pname != "self":
-                raise AstLost(f"{unit.fn}: receiver mismatch")
-            dict.__setitem__(env, "self", val)
-        else:
-            it1.bind(sp["pat"], val, env)
-        args1.append(val)
-    try:
+    if len(sig["params"]) != len(unit.params):
+        raise AstLost(f"{unit.fn}: signature has {len(sig['params'])} parameters, contract expects {len(unit.params)}")
+
+    def exec_code(decisions):
+        ctx1 = Ctx()
+        it1 = Interp(ctx1, contracts, consts, src_name=f"{unit.file}::{unit.fn}")
+        it1.trace_only, it1.tracked = unit.trace_only, unit.tracked
+        it1.file_root = (root, unit.file, unit.fn.rsplit("::", 1)[0] if "::" in unit.fn else None)
+        it1.decisions = list(decisions)
+        env = ChildEnv(None)
+        args1 = []
+        made = [mk() for (_n, mk) in unit.params]
+        for sp, (pname, _mk), val in zip(sig["params"], unit.params, made):
+            if sp.get("recv"):
+                if pname != "self":
+                    raise AstLost(f"{unit.fn}: receiver mismatch")
+                dict.__setitem__(env, "self", val)
+            else:
+                it1.bind(sp["pat"], val, env)
+            args1.append(val)
         try:
-            res1 = it1.block(ast["body"], env)
-        except Return as r:
-            res1 = r.v
-    except RecursionError:
-        raise OutsideFragment("recursion limit")
-    # ---- contract
+            try:
+                res1 = it1.block(ast["body"], env)
+            except Return as r:
+                res1 = r.v
+        except RecursionError:
+            raise OutsideFragment("recursion limit")
+        return res1, args1, ctx1, it1
+
+    MAX_PATHS = 64
+    paths = []
+    stack = [[]]
+    while stack:
+        dec = stack.pop()
+        try:
+            r = exec_code(dec)
+        except NeedDecision:
+            stack.append(dec + [False])
+            stack.append(dec + [True])
+            if len(stack) + len(paths) > MAX_PATHS:
+                raise OutsideFragment(f"more than {MAX_PATHS} paths")
+            continue
+        paths.append(r)
+    # ---- contract (single path)
     ctx2 = Ctx()
     it2 = Interp(ctx2, contracts, consts, src_name=f"contract of {unit.name}")
     args2 = [mk() for (_n, mk) in unit.params]
     recv2 = args2[0] if unit.params and unit.params[0][0] == "self" else None
     rest2 = args2[1:] if recv2 is not None else args2
     res2 = unit.contract(it2, recv2, rest2)
-    out1 = unit.outputs(res1, args1, ctx1)
     out2 = unit.outputs(res2, args2, ctx2)
     if perturb:
         out2 = perturb(out2)
     obs = []
-    keys = list(out2.keys())
-    for k in out1.keys():
-        if k not in out2:
-            keys.append(k)
-    for k in keys:
+    calls = []
+    worst = {}   # key -> (ok, detail, cex, undecided?)
+    for (res1, args1, ctx1, it1) in paths:
+        calls += it1.calls
+        out1 = unit.outputs(res1, args1, ctx1)
+        pcs = it1.path_conds
+        pc_txt = " && ".join(("" if t else "!") + canon(c) for c, t in pcs)
+        keys = list(out2.keys()) + [k for k in out1.keys() if k not in out2]
+        for k in keys:
+            if k not in out1 or k not in out2:
+                worst[k] = (False, f"output {k} missing in {'code' if k not in out1 else 'contract'}", None, False)
+                continue
+            a, b = out1[k], out2[k]
+            ok, detail, cex = compare(a, b, seed)
+            und = False
+            if not ok and pcs:
+                # the path condition may make the two sides coincide: specialise for the predicates we understand
+                sub = {}
+                for c, t in pcs:
+                    if isinstance(c, VOpaque) and c.name == "is_zero" and t and isinstance(c.args[0], (Sym, VOpaque, Poly)):
+                        vs = as_poly(c.args[0]).vars()
+                        if len(vs) == 1:
+                            sub[list(vs)[0]] = C(0)
+                if sub:
+                    ok, detail2, cex2 = compare(_subst(a, sub), _subst(b, sub), seed)
+                    if not ok:
+                        detail, cex = detail2, cex2
+                if not ok:
+                    # a difference is a genuine counterexample only if the path condition does not constrain its symbols
+                    dv = _diff_vars(a, b)
+                    cv_ = set()
+                    for c, _t in pcs:
+                        cv_ |= _value_vars(c)
+                    if dv is None or (dv & cv_):
+                        und = True
+                    detail = f"on the path [{pc_txt}]: {detail}"
+            if k not in worst or (worst[k][0] and not ok):
+                worst[k] = (ok, detail, cex, und)
+    for k, (ok, detail, cex, und) in worst.items():
         oid = f"{unit.name}.{k}"
-        if k not in out1 or k not in out2:
-            obs.append({"id": oid, "unit": unit.name, "kind": "ring", "text": f"output `{k}` present on both sides",
-                        "status": "failed", "detail": f"output {k} missing in {'code' if k not in out1 else 'contract'}",
-                        "backend": "ringcheck"})
-            continue
-        a, b = out1[k], out2[k]
-        ok, detail, cex = compare(a, b, seed)
+        b = out2.get(k)
+        if not ok and und:
+            raise OutsideFragment(f"{oid}: code and contract differ on a path whose condition constrains the differing values; "
+                                  f"cannot decide ({detail[:300]})")
         ob = {"id": oid, "unit": unit.name, "kind": "ring",
-              "text": f"{unit.fn}: {k} == {show(b)[:240] if not isinstance(b, list) else '[%d items]' % len(b)}",
+              "text": f"{unit.fn}: {k} == {show(b)[:240] if not isinstance(b, list) else '[%d items]' % len(b)}" + (f" on all {len(paths)} paths" if len(paths) > 1 else ""),
               "status": "discharged" if ok else "failed", "detail": detail, "cex": cex, "backend": "ringcheck"}
         if not ok and cex and unit.replay and k in ("result", "msm"):
             ob["recipe"] = unit.replay
         obs.append(ob)
-    return obs, it1.calls
+    return obs, calls
+
+
+def _subst(v, sub):
+    if isinstance(v, (Poly, Sym)):
+        return as_poly(v).subst(sub)
+    if isinstance(v, VOpaque):
+        return VOpaque(v.name, [_subst(x, sub) for x in v.args])
+    if isinstance(v, VArr):
+        return VArr([_subst(x, sub) for x in v.items], v.kind)
+    if isinstance(v, VTuple):
+        return VTuple([_subst(x, sub) for x in v.items])
+    if isinstance(v, (list, tuple)):
+        return type(v)(_subst(x, sub) for x in v)
+    if isinstance(v, VOk):
+        return VOk(_subst(v.v, sub))
+    if isinstance(v, VStruct):
+        return VStruct(v.name, {k: _subst(x, sub) for k, x in v.fields.items()})
+    return v
+
+
+def _value_vars(v):
+    if isinstance(v, (Poly, Sym)):
+        return set(as_poly(v).vars())
+    if isinstance(v, VOpaque):
+        out = {v.canon()}
+        for x in v.args:
+            out |= _value_vars(x)
+        return out
+    if isinstance(v, (VArr, VIter, VTuple)):
+        out = set()
+        for x in v.items:
+            out |= _value_vars(x)
+        return out
+    if isinstance(v, (list, tuple)):
+        out = set()
+        for x in v:
+            out |= _value_vars(x)
+        return out
+    if isinstance(v, VOk):
+        return _value_vars(v.v)
+    if isinstance(v, VStruct):
+        out = set()
+        for x in v.fields.values():
+            out |= _value_vars(x)
+        return out
+    return set()
+
+
+def _diff_vars(a, b):
+    """symbols occurring in the difference of two comparable values (None if not computable)"""
+    try:
+        if isinstance(a, (Poly, Sym)) and isinstance(b, (Poly, Sym, int)):
+            return set((as_poly(a) - as_poly(b)).vars())
+    except OutsideFragment:
+        return None
+    va, vb = _value_vars(a), _value_vars(b)
+    return (va | vb)
 
 
 def compare(a, b, seed):
